@@ -50,10 +50,11 @@ type State struct {
 	heap  map[string]string // array name -> current term
 	ghost map[string]string // ghost/global scalars incl. $alloc
 	iter  map[ssa.Value]string
+	seen  map[*ssa.Alloc]int // allocations executed on this path (sequence numbers), for name resolution in contracts
 }
 
 func newState() *State {
-	return &State{loc: map[*ssa.Alloc]string{}, heap: map[string]string{}, ghost: map[string]string{}, iter: map[ssa.Value]string{}}
+	return &State{loc: map[*ssa.Alloc]string{}, heap: map[string]string{}, ghost: map[string]string{}, iter: map[ssa.Value]string{}, seen: map[*ssa.Alloc]int{}}
 }
 
 func (s *State) clone() *State {
@@ -69,6 +70,9 @@ func (s *State) clone() *State {
 	}
 	for k, v := range s.iter {
 		n.iter[k] = v
+	}
+	for k, v := range s.seen {
+		n.seen[k] = v
 	}
 	return n
 }
@@ -123,12 +127,16 @@ type Enc struct {
 	assumedCallees map[string]bool
 	inlined  map[string]bool
 	havocked map[string]bool
+	freshAddrs map[string]bool // addresses allocated by the function under verification (incl. inlined callees)
+	tinvSeen map[string]bool
+	nseq     int
+	explicitAssumes map[string]bool
 }
 
 func newEnc(m *Model, fn *ssa.Function, c *Contract) *Enc {
 	return &Enc{m: m, top: fn, topName: m.fnName[fn], contract: c, declared: map[string]bool{}, lits: map[string]string{},
 		heaps: map[string]*heapDecl{}, ordinals: map[string]int{}, specFnDeclared: map[string]bool{},
-		assumedCallees: map[string]bool{}, inlined: map[string]bool{}, havocked: map[string]bool{}}
+		assumedCallees: map[string]bool{}, inlined: map[string]bool{}, havocked: map[string]bool{}, freshAddrs: map[string]bool{}, tinvSeen: map[string]bool{}, explicitAssumes: map[string]bool{}}
 }
 
 func (e *Enc) declare(line string) { e.decls = append(e.decls, line) }
@@ -413,7 +421,7 @@ type fctx struct {
 	loops    []*loopInfo
 	contract *Contract
 	entrySt  *State
-	namedLoc map[string]*ssa.Alloc
+	namedLoc map[string][]*ssa.Alloc
 	retCount int
 	mods     map[string][]string
 }
@@ -604,6 +612,22 @@ func (e *Enc) join(fc *fctx, b *ssa.BasicBlock, in []edge) (string, *State) {
 	}
 	st.heap = mergeMap(func(s *State) map[string]string { return s.heap }, func(k string) string { return k + "@in" }, func(k string) string { return e.heaps[k].sort })
 	st.ghost = mergeMap(func(s *State) map[string]string { return s.ghost }, func(k string) string { return e.ghostGet(newState(), k) }, func(k string) string { return e.ghostSort(k) })
+	for a, n := range in[0].st.seen {
+		all := true
+		for _, ed := range in[1:] {
+			m, ok := ed.st.seen[a]
+			if !ok {
+				all = false
+				break
+			}
+			if m > n {
+				n = m
+			}
+		}
+		if all {
+			st.seen[a] = n
+		}
+	}
 	// iterators
 	for k, t0 := range in[0].st.iter {
 		all, same := true, true
@@ -695,10 +719,11 @@ func (e *Enc) runFunc(fc *fctx, guard string, st *State) []retInfo {
 		}
 		cur := &cursor{guard: g, st: s, fc: fc, block: b}
 		dead := false
-		for _, ins := range b.Instrs {
+		for ii, ins := range b.Instrs {
 			if _, ok := ins.(*ssa.Phi); ok {
 				continue
 			}
+			cur.idx = ii
 			switch x := ins.(type) {
 			case *ssa.If:
 				c := e.asTerm(e.value(fc, x.Cond))
@@ -748,6 +773,7 @@ type cursor struct {
 	st    *State
 	fc    *fctx
 	block *ssa.BasicBlock
+	idx   int // index of the instruction being executed within block
 	dead  bool
 }
 
